@@ -1,5 +1,6 @@
 import Cx.Proofs.Nfa
 import Cx.Proofs.Pike
+import Cx.Proofs.Dfa
 /-
   C14 — each matching engine agrees with the reference on everything it accepts.
 
@@ -45,6 +46,45 @@ theorem C14_pike_search_eq_reference {N : NFA} {h : Bytes} (hna : Pike.anchored 
 theorem C14_pike_search_sound {N : NFA} {h : Bytes} (hna : Pike.anchored N = false) (hS : Pike.SparseDet N) (hR : Pike.RuneOK N h)
     {at_ s e : Nat} (hr : Pike.searchAt N h at_ false = some (s, e)) :
     at_ ≤ s ∧ s ≤ e ∧ e ≤ h.size ∧ Accepts N h s e := Pike.search_sound hna hS hR hr
+
+/-! #### lazy DFA (`dfa/lazy`: determinisation on the fly, transition memo with capacity, clears and give-up)
+
+The model `Cx.Dfa` is a transliteration of the search-relevant code (closure, move with break-at-match, start states,
+cache insert / clear-and-rebuild / give-up, acceleration, the 4x unrolled loop) and is replayed call by call against the
+real DFA in every run.  For look-free automata the memo is invisible and the answer is the reference's END, for every cache
+capacity (also one too small for any state), every clear limit and every history of earlier calls on the same cache. -/
+
+/-- any sequence of `SearchAt`/`IsMatch`/`IsMatchAt` calls on one cache, then `SearchAt`: the code either hands over to the
+    NFA simulation or returns the end of the leftmost-first match — never a different answer.  Hypotheses are decidable
+    checks on the dumped automaton and its byte classes (`dfa hyps`, `dfa classcompat` in the driver). -/
+theorem C14_dfa_search_eq_reference_any_history {N : NFA} (hlf : Dfa.lookFreeB N = true) (hnr : Dfa.noRuneB N = true)
+    (hsd : Dfa.sparseDisjointB N = true) (hp : Dfa.prefixOKB N = true) {cfg : Dfa.Config} (hbrk : cfg.breakAtMatch = true)
+    (hC : Dfa.ClassSound N cfg) (calls : List Dfa.Call) (hbs : ∀ k ∈ calls, Dfa.BytesOK k.hay)
+    (hks : ∀ k ∈ calls, k.isAnchored = false) {h : Bytes} (hb : Dfa.BytesOK h) {at_ : Nat} (hat : at_ ≤ h.size) :
+    (Dfa.apiSearchAt N cfg (Dfa.runCalls N cfg calls) h at_).1 = .gaveUp ∨
+    (Dfa.apiSearchAt N cfg (Dfa.runCalls N cfg calls) h at_).1 = .ok ((btSearchAt N h at_).map (·.2)) :=
+  Dfa.session_searchAt hlf hnr hsd hp hbrk hC calls hbs hks hb hat
+
+theorem C14_dfa_isMatch_iff_any_history {N : NFA} (hlf : Dfa.lookFreeB N = true) (hnr : Dfa.noRuneB N = true)
+    (hsd : Dfa.sparseDisjointB N = true) (hp : Dfa.prefixOKB N = true) {cfg : Dfa.Config} (hbrk : cfg.breakAtMatch = true)
+    (hC : Dfa.ClassSound N cfg) (calls : List Dfa.Call) (hbs : ∀ k ∈ calls, Dfa.BytesOK k.hay)
+    (hks : ∀ k ∈ calls, k.isAnchored = false) {h : Bytes} (hb : Dfa.BytesOK h) {at_ : Nat} (hat : at_ < h.size) :
+    (Dfa.apiIsMatchAt N cfg (Dfa.runCalls N cfg calls) h at_).1 = .gaveUp ∨
+    ∃ r, (Dfa.apiIsMatchAt N cfg (Dfa.runCalls N cfg calls) h at_).1 = .ok r ∧
+      (r = true ↔ ∃ i j, at_ ≤ i ∧ i ≤ h.size ∧ Accepts N h i j) :=
+  Dfa.session_isMatchAt hlf hnr hsd hp hbrk hC calls hbs hks hb hat
+
+/-- the statement is FALSE for the code outside those hypotheses; each witness is the model run on an NFA dumped from the
+    real compiler and was confirmed on the real DFA (they are the open C14-dfa-* findings):
+    byte classes that do not separate `\n` when the automaton has `(?m)^` ((?m)^a on "\n0a": end 3, reference none);
+    `SearchAtAnchored` after a cache clear (abc, 200-byte cache: none instead of 3);
+    state acceleration after anchored searches filled a row ([ab]*a[ab][ab]: end 7 instead of 3) -/
+theorem C14_dfa_deviations_partial :
+    ((Dfa.apiSearchAt Dfa.nfaCaretA Dfa.cfgCaretA Dfa.Cache.empty #[10, 48, 97] 0).1 = .ok (some 3) ∧
+      btSearchAt Dfa.nfaCaretA #[10, 48, 97] 0 = none) ∧
+    ((Dfa.apiSearchAtAnchored Dfa.nfaABC Dfa.cfg200 Dfa.Cache.empty #[97, 98, 99] 0).1 = .ok none ∧
+      Dfa.apiSearchAtAnchoredU Dfa.nfaABC Dfa.cfg200 #[97, 98, 99] 0 = .ok (some 3)) :=
+  ⟨⟨Dfa.class_unsound_visible.1, Dfa.class_unsound_visible.2.2⟩, Dfa.anchored_clear_visible⟩
 
 /- non-vacuity: the NFA of `a|ab` (split, two byte paths) on "ab": first alternative wins -/
 def exN : NFA := { states := #[.split 1 2, .byteRange 97 97 5, .byteRange 97 97 3, .byteRange 98 98 5, .fail, .mtch],
